@@ -45,7 +45,18 @@ func (ex *Exec) callFunc(st *State, fr *Frame, c ssa.Instruction, fn *ssa.Functi
 	// In recover mode callees are executed, not abstracted: what happens after a violated callee
 	// precondition (panic or garbage) decides the property, and only the body knows.
 	inlineAll := ex.topFC != nil && ex.topFC.InlineCalls && ex.L.isRepoFunc(fn) && fn.Blocks != nil
-	if inlineAll && fr != nil && (strings.Contains(fr.chain, "in:"+shortFuncName(fn)) || fr.fn == fn) && ex.L.Contracts.lookup(fn) != nil {
+	recDepth := 0
+	if fr != nil {
+		recDepth = strings.Count(fr.chain+">", "in:"+shortFuncName(fn)+">")
+		if fr.fn == fn && recDepth == 0 {
+			recDepth = 1
+		}
+	}
+	recAllowed := 0
+	if ex.topFC != nil {
+		recAllowed = ex.topFC.Recurse
+	}
+	if inlineAll && recDepth > recAllowed && ex.L.Contracts.lookup(fn) != nil {
 		inlineAll = false // recursion: the nested call is abstracted by its contract
 	}
 	if fc := ex.L.Contracts.lookup(fn); fc != nil && !fc.InlineOnly && !inlineAll && !(ex.recoverMode && ex.L.isRepoFunc(fn) && fn.Blocks != nil) {
@@ -70,10 +81,8 @@ func (ex *Exec) callFunc(st *State, fr *Frame, c ssa.Instruction, fn *ssa.Functi
 	if fr.depth >= ex.maxInline {
 		oos("inline depth exceeded at %s (callee needs a contract)", fn)
 	}
-	for f := fr; f != nil; f = nil {
-		if strings.Contains(f.chain, "in:"+shortFuncName(fn)) || (fr.fn == fn) {
-			oos("recursive call to %s needs a contract", fn)
-		}
+	if recDepth > recAllowed {
+		oos("recursive call to %s needs a contract", fn)
 	}
 	ex.inlined[funcKey(fn)] = true
 	nf := ex.newFrame(fn, args, bind, fr)
